@@ -34,6 +34,9 @@ type execCase struct {
 	// IgnoreToken is removed from stdout and stderr before they are compared: the text of an input() prompt, which an
 	// implementation may or may not show when standard input is not a terminal.
 	IgnoreToken string `json:"ignore_token,omitempty"`
+	// AfterOtherTarget: the Bash script comes from a transpiler object that has translated the program for Batch before
+	// (tsh -t batch -t bash); the two targets never influence each other, so the script must be as good as a first one.
+	AfterOtherTarget bool `json:"after_other_target,omitempty"`
 }
 
 type execOutcome struct {
@@ -60,6 +63,9 @@ func errClass(s string) string {
 
 func runExecCase(c execCase) execOutcome {
 	tr := run.TranspileSrc(c.Files, c.Main, run.Bash)
+	if c.AfterOtherTarget {
+		tr = run.TranspileSecond(c.Files, c.Main, run.Bash)
+	}
 	if !tr.Accepted() {
 		kind := "rejected"
 		if tr.Panic != "" {
